@@ -120,8 +120,7 @@ package object
 
 //@ func Object.compress
 //@   returns buf, err
-//@   trusted
-//@   pure
+//@   modifies $zw
 //@   ensures [zlib] err == nil ==> bufBytes(buf) == zlibEnc(objHeader(o.Type, o.Size) + string(o.Data))
 
 //@ func Object.Write
